@@ -76,6 +76,9 @@ bool buffer::move(buffer &from)
 	if (this == &from) {
 		return true;
 	}
+	if (_content_traits != from._content_traits) {
+		return false;
+	}
 	if (_size < from._used) {
 		return false;
 	}
